@@ -6,13 +6,15 @@ namespace OAP.C19
 open OAP OAP.Request
 
 /-- T2 structure facts, regenerated from go/context.go and go/packet.go on every run: the generator is one
-atomic add-and-fetch, and the request constructors append the fresh id after the caller's options while the
-response/push constructors do not stamp an id -/
+atomic add-and-fetch, and the request constructors append the fresh id after the caller's options — to a COPY of the caller's
+slice (`opts[:len(opts):len(opts)]`: the append cannot write into spare capacity of a slice that goroutines share; defect D23
+of the pinned tree, where concurrent constructors given one shared option slice picked up each other's id) — while the
+response/push constructors do not stamp an id. The list model of `Request` (`opts ++ [id]`, a value) is faithful only with that copy. -/
 theorem source_structure :
     Gen.stmts_GetRequestIDGen = ["var id uint32", "return func() uint32 { return atomic.AddUint32(&id, 1) }"] ∧
-    Gen.stmts_NewRequest = ["opts = append(opts, WithRequestId(ctx.NextReqId()))",
+    Gen.stmts_NewRequest = ["opts = append(opts[:len(opts):len(opts)], WithRequestId(ctx.NextReqId()))",
                             "return NewPacket(ctx, RequestPacket, cmd, body, opts...)"] ∧
-    Gen.stmts_MustNewRequest.take 2 = ["opts = append(opts, WithRequestId(ctx.NextReqId()))",
+    Gen.stmts_MustNewRequest.take 2 = ["opts = append(opts[:len(opts):len(opts)], WithRequestId(ctx.NextReqId()))",
                                       "p, e := NewPacket(ctx, RequestPacket, cmd, body, opts...)"] ∧
     Gen.stmts_NewResponse = ["opts = append(opts, WithStatusCode(sc))", "return NewPacket(ctx, ResponsePacket, cmd, body, opts...)"] ∧
     Gen.stmts_MustNewResponse.take 2 = ["opts = append(opts, WithStatusCode(code))", "p, e := NewPacket(ctx, ResponsePacket, cmd, body, opts...)"] ∧
